@@ -130,6 +130,16 @@ def _work(job: t.Tuple[t.Any, ...]) -> evid.Local:
         for k in range(lo, hi, stepn):
             for shape in ("balanced", "unclosed", "overclosed", "spaced"):
                 _rec(loc, nest(op, k, shape), {"op": op, "k": k, "shape": shape})
+    elif fam == "unicode":
+        # one representative of every kind of character a loosened class (\\d, \\w, str.isalnum, strip()) would let through
+        reps = ["\u0663", "\uff14", "\u09e9", "\u00aa", "\u00e9", "\u0394", "\u4e2d", "\u00b2", "\u2160", "\u2010", "\u2212", "\uff0d", "\u00a0", "\u2003", "\u3000",
+                "\u200b", "\u200d", "\u0301", "\ufe0f", "\u00ad", "\x85", "\x1c", "\x0b", "\x0c", "\uff1d", "\uff1a", "\uff08", "\U0001d7d8", "\U0001d44e"]
+        tpls = ["{c}=x", "a{c}=x", "{c}a=x", "1.2{c}=x", "1.{c}=x", "{c}.2=x", "1{c}2.3=x", "a;{c}=x", "a;b{c}=x", "a{c};b=x", "(a:{c}:=x)", "(a:b{c}:=x)", "(:1.2{c}:=x)",
+                "(a:1.{c}.3:=x)", "(a{c}:dn:=x)", "(a:dn{c}:=x)", "(a:d{c}n:=x)", "{c}(a=x)", "(a=x){c}", "({c}a=x)", "(&{c}(a=x))", "(!(a=x){c})", "(a=x{c})", "(a=*{c}*)", "(a~{c}=x)", "(a{c}>=x)"]
+        for c in reps:
+            for tpl in tpls:
+                _rec(loc, tpl.format(c=c))
+                _rec(loc, tpl.format(c=c + c))
     elif fam == "surrogates":
         for bad in ["\ud800", "\udc80", "\udcff", "\udfff"]:
             for tpl in ["{}=a", "a={}", "({}=a)", "(a={})", "(a:{}:=b)", "(&(a=b)({}=c))", "a=\\{}", "{}"]:
@@ -173,6 +183,7 @@ def run(ctx: evid.Ctx) -> None:
         jobs += [("nest", op, 1 + a, 1 + b, 1) for a, b in par.split(400, 8)]
         jobs += [("nest", op, 401 + a, 401 + b, stepn) for a, b in par.split(4600, 16)]
     jobs.append(("surrogates",))
+    jobs.append(("unicode",))
     for loc in par.pmap(_work, jobs, ctx.seed):
         evid.absorb(ctx, loc)
     ctx.counters["evaluations"] = ctx.counters.get("states", 0)
